@@ -360,13 +360,10 @@ def oracle(case, rec):
             dis[t] += max(0., v)
     scale = max(1.0, abs(size), abs(start_l), abs(end_l), max([abs(cap_in * d) for d in dt_all] + [0]), max([abs(cap_out * d) for d in dt_all] + [0]))
     tol = 2e-5 * scale
-    known = msd is not None and (start_l != 0 or inflow != 0)
-    facts0 = {'kind': 'max_hold_level_offset'} if known else {}
     viol = []
 
     def add(orc, detail, **facts):
-        f = dict(facts0)
-        f.update(facts)
+        f = dict(facts)
         f.update({'max_store_duration': msd is not None, 'start_level_nonzero': start_l != 0, 'inflow_nonzero': inflow != 0,
                   'blocks': 'block_size' in a, 'two_vars': two_vars, 'nodes': len(case['nodes'])})
         viol.append({'oracle': orc, 'detail': detail, 'facts': f})
@@ -495,7 +492,7 @@ def run_case(case, drv, solve=True):
 
 def selftest(n, seed, drv, solve=True, verbose=False):
     rnd = random.Random(seed)
-    counts = {'cases': 0, 'disagreeing': 0, 'violating': 0, 'nontrivial': 0, 'known_only': 0}
+    counts = {'cases': 0, 'disagreeing': 0, 'violating': 0, 'nontrivial': 0}
     feats = {}
     dis, viol = [], []
     for i in range(n):
@@ -512,9 +509,7 @@ def selftest(n, seed, drv, solve=True, verbose=False):
                 print('DISAGREE', i, r['disagreements'][:2])
         if r['violations']:
             counts['violating'] += 1
-            if all(v['facts'].get('kind') == 'max_hold_level_offset' for v in r['violations']):
-                counts['known_only'] += 1
             viol.append((i, case, r['violations']))
             if verbose:
-                print('VIOLATION', i, [(v['oracle'], v['detail'], v['facts'].get('kind')) for v in r['violations']][:3])
+                print('VIOLATION', i, [(v['oracle'], v['detail']) for v in r['violations']][:3])
     return {'counts': counts, 'features': feats, 'disagreements': dis, 'violations': viol}
